@@ -524,7 +524,7 @@ class Models:
         mkey = ("seq_to_set", v.term.get_id())
         if mkey in st.memo:
             return st.memo[mkey]
-        S = z3.Const(fresh_name("setof"), z3.ArraySort(es, z3.BoolSort()))
+        S = z3.Const(f"setof!{v.term.get_id()}", z3.ArraySort(es, z3.BoolSort()))
         v = V(v.kind, v.kind.as_const(st, v.term))
         i = z3.Const(fresh_name("i"), z3.IntSort())
         x = z3.Const(fresh_name("x"), es)
